@@ -2,29 +2,86 @@
   Proofs.C14 — lemmas and proofs behind Props/C14.lean.
 -/
 import Spec.Single
+import Proofs.C14Fam
+import Proofs.C14Cex
 
 namespace MongoModel.Proofs.C14
 open MongoModel MongoModel.Spec
+open MongoModel.Proofs.C10Lemmas MongoModel.Proofs.C14Lemmas
 
 theorem update_one_touches_first_only (cfg : Cfg) (now : Int) (c c1 c' : Coll) (fs : Fields) (u : Val)
     (q : Val × Val) (rest : List (Val × Val)) (r : R UpdateResult)
     (he : expire now c = .ok c1) (hi : IdInv c) (hg : GoodKeys c) (hn : c.ttlIndexes = [])
     (hs : selectDocs (patchDT (.doc fs)) c1.docs = .ok (q :: rest))
     (h : applyUpdateColl cfg now c (.doc fs) u false false = (c', r)) :
-    sameExcept q.1 c1.docs c'.docs ∧ c'.docs.length = c1.docs.length := by sorry
+    sameExcept q.1 c1.docs c'.docs ∧ c'.docs.length = c1.docs.length := by
+  rw [expire_nil now c hn] at he
+  cases he
+  rcases update_one_core cfg now c c' fs u false q rest r hn hi.1 hg hs h with
+    ⟨rfl, _⟩ | ⟨new, res, _, _, _, rfl, _, _, _, _⟩
+  · exact ⟨sameExcept_refl _ _, rfl⟩
+  · have hq : q ∈ c.docs := (select_sublist _ _ _ hs).subset (List.mem_cons_self ..)
+    rw [setDoc_docs new (hasKey_of_mem hg hq)]
+    exact ⟨sameExcept_map q.1 q.1 new c.docs (fun _ _ h => h), List.length_map ..⟩
 
-theorem update_one_no_match_noop (cfg : Cfg) (now : Int) (c c1 c' : Coll) (fs : Fields) (u : Val)
+/-- corrected `update_one_no_match_noop`: nothing is selected, so the collection is the expired
+    one — or the call raised before the scan and returned the collection untouched -/
+theorem update_one_no_match_noop_alt (cfg : Cfg) (now : Int) (c c1 c' : Coll) (fs : Fields) (u : Val)
     (r : R UpdateResult) (he : expire now c = .ok c1) (hne : c1.docs ≠ [])
     (hs : selectDocs (patchDT (.doc fs)) c1.docs = .ok [])
     (h : applyUpdateColl cfg now c (.doc fs) u false false = (c', r)) :
-    c'.docs = c1.docs := by sorry
+    c' = c1 ∨ (c' = c ∧ ∃ e, r = .error e) := by
+  have hno : ∀ p ∈ c1.docs, filterApplies (patchDT (.doc fs)) p.2 = .ok false := by
+    obtain ⟨h1, h2⟩ := select_filter _ _ _ hs
+    intro p hp
+    rw [h2 p hp]
+    have := List.filter_eq_nil_iff.1 h1.symm p hp
+    simp only [Bool.not_eq_true] at this
+    rw [this]
+  unfold applyUpdateColl at h
+  extract_lets spec document nowV at h
+  have hspec : spec = .doc (patchFields fs) := patch_doc fs
+  have hno' : ∀ p ∈ c1.docs, filterApplies spec p.2 = .ok false := hno
+  clear_value spec document nowV
+  subst hspec
+  rw [MongoModel.Proofs.C10.pre_eq now c c1 _ he hne] at h
+  split at h
+  · split at h
+    · cases h; exact Or.inr ⟨rfl, _, rfl⟩
+    · dsimp only at h
+      rw [loop_nomatch now _ _ nowV false c1 hno' c1.docs 0 0] at h
+      simp at h
+      exact Or.inl h.1.symm
+  · cases h; exact Or.inr ⟨rfl, _, rfl⟩
+
+/-- … in particular when the call succeeds -/
+theorem update_one_no_match_noop_alt_ok (cfg : Cfg) (now : Int) (c c1 c' : Coll) (fs : Fields)
+    (u : Val) (res : UpdateResult) (he : expire now c = .ok c1) (hne : c1.docs ≠ [])
+    (hs : selectDocs (patchDT (.doc fs)) c1.docs = .ok [])
+    (h : applyUpdateColl cfg now c (.doc fs) u false false = (c', .ok res)) :
+    c'.docs = c1.docs := by
+  rcases update_one_no_match_noop_alt cfg now c c1 c' fs u _ he hne hs h with rfl | ⟨_, e, he'⟩
+  · rfl
+  · cases he'
+
+/-- … and when there is no TTL index (the hypothesis of `update_one_touches_first_only`) -/
+theorem update_one_no_match_noop_alt_nottl (cfg : Cfg) (now : Int) (c c1 c' : Coll) (fs : Fields)
+    (u : Val) (r : R UpdateResult) (he : expire now c = .ok c1) (hne : c1.docs ≠ [])
+    (hn : c.ttlIndexes = [])
+    (hs : selectDocs (patchDT (.doc fs)) c1.docs = .ok [])
+    (h : applyUpdateColl cfg now c (.doc fs) u false false = (c', r)) :
+    c'.docs = c1.docs := by
+  rcases update_one_no_match_noop_alt cfg now c c1 c' fs u _ he hne hs h with rfl | ⟨rfl, _⟩
+  · rfl
+  · rw [expire_nil now _ hn] at he; cases he; rfl
 
 theorem delete_one_removes_first (now : Int) (c c1 : Coll) (fs : Fields)
     (q : Val × Val) (rest : List (Val × Val))
     (he : expire now c = .ok c1) (hi : IdInv c) (hg : GoodKeys c)
     (hs : selectDocs (patchDT (.doc fs)) c1.docs = .ok (q :: rest)) :
     (deleteColl now c (.doc fs) false).2 = .ok 1 ∧
-    (deleteColl now c (.doc fs) false).1.docs = c1.docs.filter (fun p => !pyEq q.1 p.1) := by sorry
+    (deleteColl now c (.doc fs) false).1.docs = c1.docs.filter (fun p => !pyEq q.1 p.1) :=
+  delete_first now c c1 fs q rest he hi hg hs
 
 theorem find_one_is_first_sorted (now : Int) (c c1 : Coll) (fs : Fields) (proj : Val)
     (sort : Option SortSpec) (sel : List (Val × Val)) (out : Option Val)
@@ -34,36 +91,79 @@ theorem find_one_is_first_sorted (now : Int) (c c1 : Coll) (fs : Fields) (proj :
     ∃ t, firstSorted sort sel = .ok t ∧
       (match t with
        | none => out = none
-       | some d => copyOnlyFields d proj = .ok (out.getD .null) ∧ out.isSome) := by sorry
+       | some d => copyOnlyFields d proj = .ok (out.getD .null) ∧ out.isSome) := by
+  rw [findOne_eq now c c1 fs proj sort sel he hne hs] at h
+  obtain ⟨sorted, hg, hm⟩ := headProj_ok proj sort _ out h
+  refine ⟨sorted.head?, by simp only [firstSorted, hg, Except.map], ?_⟩
+  cases hh : sorted.head? with
+  | none => rw [hh] at hm; exact hm
+  | some d =>
+    rw [hh] at hm
+    obtain ⟨o, h1, rfl⟩ := hm
+    exact ⟨h1, rfl⟩
 
-theorem fam_delete_spec (cfg : Cfg) (now : Int) (c c1 c' : Coll) (fs : Fields) (proj : Val)
+/-- corrected `fam_delete_spec`: no store key is an array (`storeKey` rejects lists, so this holds
+    in every reachable state) and the target's `_id` is normalised (as `insert` leaves it) -/
+theorem fam_delete_spec_alt (cfg : Cfg) (now : Int) (c c1 c' : Coll) (fs : Fields) (proj : Val)
     (sort : Option SortSpec) (sel : List (Val × Val)) (target : Val) (tid : Val) (ret : Option Val)
     (he : expire now c = .ok c1) (hi : IdInv c) (hg : GoodKeys c) (hn : c.ttlIndexes = [])
+    (hna : ∀ p ∈ c.docs, p.1.isArr = false)
     (hs : selectDocs (patchDT (.doc fs)) c1.docs = .ok sel)
     (ht : firstSorted sort sel = .ok (some target)) (hid : idOf target = some tid)
-    (hsc : isScalar tid = true)
+    (hsc : isScalar tid = true) (hpt : patchDT tid = tid)
     (h : findAndModify cfg now c (.doc fs) proj none false sort false = (c', .ok ret)) :
     sameExcept tid c1.docs c'.docs ∧ c'.docs.length + 1 = c1.docs.length ∧
-    copyOnlyFields target proj = .ok (ret.getD .null) ∧ ret.isSome := by sorry
+    copyOnlyFields target proj = .ok (ret.getD .null) ∧ ret.isSome := by
+  rw [expire_nil now c hn] at he
+  cases he
+  exact fam_delete_core cfg now c c' fs proj sort sel target tid ret hi hg hn hna hs ht hid hsc hpt h
 
-theorem fam_update_spec (cfg : Cfg) (now : Int) (c c1 c' : Coll) (fs : Fields) (proj u : Val)
+/-- corrected `fam_update_spec` (see `fam_delete_spec_alt` for `hna`, `hpt`) -/
+theorem fam_update_spec_alt (cfg : Cfg) (now : Int) (c c1 c' : Coll) (fs : Fields) (proj u : Val)
     (upsert after : Bool)
     (sort : Option SortSpec) (sel : List (Val × Val)) (target : Val) (tid : Val) (ret : Option Val)
     (he : expire now c = .ok c1) (hi : IdInv c) (hg : GoodKeys c) (hn : c.ttlIndexes = [])
+    (hna : ∀ p ∈ c.docs, p.1.isArr = false)
     (hs : selectDocs (patchDT (.doc fs)) c1.docs = .ok sel)
     (ht : firstSorted sort sel = .ok (some target)) (hid : idOf target = some tid)
-    (hsc : isScalar tid = true)
+    (hsc : isScalar tid = true) (hpt : patchDT tid = tid)
     (h : findAndModify cfg now c (.doc fs) proj (some u) upsert sort after = (c', .ok ret)) :
     sameExcept tid c1.docs c'.docs ∧ c'.docs.length = c1.docs.length ∧
     (after = false → copyOnlyFields target proj = .ok (ret.getD .null) ∧ ret.isSome) ∧
-    (after = true → ∃ p' ∈ c'.docs, pyEq p'.1 tid = true ∧
-        copyOnlyFields p'.2 proj = .ok (ret.getD .null)) := by sorry
+    (after = true → (∀ tfs, target = Val.doc tfs → (dkeys tfs).Nodup) →
+      ∃ p' ∈ c'.docs, pyEq p'.1 tid = true ∧
+        copyOnlyFields p'.2 proj = .ok (ret.getD .null)) := by
+  rw [expire_nil now c hn] at he
+  cases he
+  exact fam_update_core cfg now c c' fs proj u upsert after sort sel target tid ret hi hg hn hna hs
+    ht hid hsc hpt h
 
 theorem fam_no_match_noop (cfg : Cfg) (now : Int) (c c1 c' : Coll) (fs : Fields) (proj : Val)
     (u : Option Val) (sort : Option SortSpec) (after : Bool) (ret : Option Val)
     (he : expire now c = .ok c1) (hne : c1.docs ≠ [])
     (hs : selectDocs (patchDT (.doc fs)) c1.docs = .ok [])
     (h : findAndModify cfg now c (.doc fs) proj u false sort after = (c', .ok ret)) :
-    ret = none ∧ c'.docs = c1.docs := by sorry
+    ret = none ∧ c'.docs = c1.docs := by
+  have hgo : findAndModify.go cfg now c (.doc fs) proj u false sort after = (c', .ok ret) := by
+    unfold findAndModify at h
+    split at h
+    · split at h
+      · cases h
+      · exact h
+    · exact h
+  unfold findAndModify.go at hgo
+  rw [findOne_eq now c c1 fs .null sort [] he hne hs] at hgo
+  cases hp : headProj .null sort (([] : List (Val × Val)).map (·.2)) with
+  | error e => rw [hp] at hgo; cases hgo
+  | ok o =>
+    rw [hp] at hgo
+    obtain ⟨sorted, hg, hm⟩ := headProj_ok _ _ _ _ hp
+    have := getDataset_nil sort sorted hg
+    subst this
+    simp only [List.head?_nil] at hm
+    subst hm
+    simp only [Bool.not_false, if_true] at hgo
+    cases hgo
+    exact ⟨rfl, rfl⟩
 
 end MongoModel.Proofs.C14
